@@ -273,13 +273,13 @@ def _walk_shallow(node: ast.AST) -> Iterator[ast.AST]:
         yield from _walk_shallow(child)
 
 
-def walk_with_lambdas(node: ast.AST) -> Iterator[ast.AST]:
-    """Walk including lambda bodies but not nested defs/classes."""
+def walk_with_lambdas(node: ast.AST, _root: bool = True) -> Iterator[ast.AST]:
+    """Walk including lambda bodies but not nested defs/classes (the root is entered)."""
     yield node
-    if isinstance(node, (ast.FunctionDef, ast.AsyncFunctionDef, ast.ClassDef)):
+    if not _root and isinstance(node, (ast.FunctionDef, ast.AsyncFunctionDef, ast.ClassDef)):
         return
     for child in ast.iter_child_nodes(node):
-        yield from walk_with_lambdas(child)
+        yield from walk_with_lambdas(child, False)
 
 
 class Program:
